@@ -124,7 +124,7 @@ class NinjaBuild(OneRulePerTarget):
 
 class CommandBuild(Contract):
     target = 'bfg9000/backends/ninja/writer.py::command_build'
-    properties = ('C03',)
+    properties = ('C03', 'C20')
 
     def cases(self):
         return ['%s/%d' % (p, n) for p in ('phony', 'plain') for n in (0, 1, 2)] + ['phony/none', 'plain/none']
@@ -168,6 +168,17 @@ class CommandBuild(Contract):
         out['inputs_and_order_only_passed_on'] = z3.BoolVal(kw.get('inputs') is a.inputs and kw.get('order_only') is a.order_only)
         v = kw.get('variables')
         out['command_bound_to_cmd'] = z3.BoolVal(isinstance(v, PDict) and v.d.get('cmd') is a.command)
+        rules = [e for e in a.events if e[0] == 'rule']
+        # C20: ninja hands a command line to CreateProcess as it is; the one rule every custom command runs through is
+        # therefore defined with a *shell list* holding the variable `cmd`, which is what makes Writer.write_shell wrap
+        # it in `cmd /s /c "..."` on Windows (contracts/windows.py ShellListWrap) -- whatever the first command was
+        import bfg9000.shell.list as _sl
+        ok = len(rules) <= 1
+        for e in rules:
+            c = e[2].get('command')
+            ok = ok and isinstance(c, PList) and c.cls is _sl.shell_list and c.concrete and len(c.items) == 1 and \
+                isinstance(c.items[0], Obj) and c.items[0].cls is nsyn.Variable
+        out['command_rule_runs_cmd_through_the_shell'] = z3.BoolVal(bool(ok))
         if a.phony:
             decl = [e for e in a.events if e[0] == 'build' and e[2].get('output') == 'PHONY']
             asked = [e for e in a.events if e[0] == 'has_build']
